@@ -8,9 +8,9 @@ P = {
  'C01': ('proof', 'Lean theorems (Props/C01.lean) over the generated size/capacity word functions (size bookkeeping of every operation shape tracks std::vector through every history; move/swap) and (Props/C01b.lean) over the slot-level model: each of 23 public operation kinds, from any state representing a list xs that satisfies the std::vector precondition, ends representing exactly the std::vector result (or throws), for every flavour and size type; histories of them end in a list the std::vector semantics allows; begin()..end() shows exactly the represented list; pools of SmallVectors (Props/C01c.lean): histories mixing all of these with copy/move assignment, swap, move/copy construction and shrink_to_fit between the containers of a pool end in the lists std::vector semantics allows, no container disturbed by an operation on another one; the model of every public operation and element helper is REGENERATED from vectorcommon.hpp on every run (translator/glue2lean.py, helpers2lean.py) and proved equal to the hand-written one (Bridge/VecGlueBridge.lean, VecHelpersBridge.lean) + three-way correspondence impl / slot-level Lean model / std::vector on random histories incl. aliasing arguments and single-pass ranges',
          'Hand-written and tied by correspondence only: the slot-level primitives (object lifetime, memmove, allocator, exceptions as a fuel counter), swap2 between different types, single-pass ranges, pools of amc::vector / FixedCapacityVector; multi-element insertion in the middle under exceptions is known finding V9. 64-bit size_type: word-level step theorems under capacity < 2^62. ' + TB),
  'C03': ('proof', 'Lean theorems on the FlatSet list model for every strict weak order (sortedness invariant of every mutator, insert inserts iff no equivalent element, lookups by equivalence, bulk = one-by-one insertion, hinted = plain insertion, binary search = specification lower bound), transferred (Props/C03b.lean) to insert / emplace / find / erase(key) / lower_bound as REGENERATED from flatset.hpp on every run by translator/flatset2lean.py and proved equal to the model in Bridge/FlatSetBridge.lean (incl. never dereferencing outside [begin,end)) + correspondence impl / model / std::set over 4 comparators x 4 underlying vectors',
-         'Generated from the source: the loop-free decision logic (insert, insert(hint), emplace(_hint), find, contains, count, equal_range, lower/upper_bound, erase(key)). Hand-written and tied by correspondence only: std::lower_bound itself (libstdc++ loop), bulk paths (sort/inplace_merge/unique at specification level), merge, node handles, constructors; heterogeneous lookups and cross-comparator merge not exercised yet. ' + TB),
+         'Generated from the source (Props/C03b, C03c): insert, insert(hint), emplace(_hint), find, contains, count, equal_range, lower/upper_bound, erase (key / position / range), clear, swap, comparisons, extract and node insertion, the bulk paths (which algorithm and which comparator object are pinned; stable_sort / inplace_merge / unique themselves are named specification functions), both merge overloads, constructors. Hand-written and tied by correspondence only: std::lower_bound itself (libstdc++ loop) and the std algorithms; heterogeneous lookups and cross-comparator merge not exercised yet. ' + TB),
  'C04': ('proof', 'Lean theorems on the SmallSet {inline vector, backing set} model for every strict weak order (state invariant kept by insert/erase/grow, insert and find answer by membership up to equivalence in either state and across grow) + correspondence impl / model / std::set with grow-drain-refill histories, both backing sets',
-         'Hand-written model tied by correspondence; std::set is modelled as a sorted duplicate-free list. ' + TB),
+         'The SmallSet logic is regenerated from smallset.hpp on every run and proved equal to the model (Props/C04b, C04c: insert, emplace, find, erase, grow, merge, range insertion, swap, extract, node insertion, comparisons); std::set is modelled as a sorted duplicate-free list. ' + TB),
  'C05': ('proof', 'Lean theorem: every history confined to N keeps an inline SmallVector inline with capacity N and emits no effect (over generated words); move/swap between inline vectors; FixedCapacityVector base members have no allocator effect and a constant begin(); + confined-history correspondence with allocator ledger',
          'SmallSet clause: decided by a counting allocator on histories whose key domain has exactly N keys (correspondence only). Global operator new is not instrumented (allocator ledger only). ' + TB),
  'C07': ('proof', 'Lean theorems (bounds, capacity monotone along histories, reserve, no reallocation when the result fits, buffer hand-over on move/swap) over generated words + correspondence of capacity()/allocator calls/element event counts',
